@@ -97,6 +97,15 @@ def is_current_fiber(fn, key):
     return mentions_field(b, "fiber_manager", "current_fiber") or mentions_field(b, "fiber_manager", "maintenance_fiber")
 
 
+def rtw(P):
+    """the value of FIBER_SIGNAL_READY_TO_WAKE (the marker a sleeper's successor stores into its scratch): read from the macro, not assumed"""
+    from rules import macro_constant
+    v, bad, site = macro_constant(P, "FIBER_SIGNAL_READY_TO_WAKE")
+    if bad or v is None:
+        raise AnalysisBroken("FIBER_SIGNAL_READY_TO_WAKE: %s" % (bad or "no value"))
+    return v
+
+
 def check_swap(ctx, P):
     sw = P.fn("fiber_manager_switch_to")
     o = ctx.ob("swap.callers", "", "fiber_context_swap is called only from fiber_manager_switch_to",
@@ -341,7 +350,7 @@ def check_wait_sites(ctx, P):
             locs = [x for x in fn.stores_to("fiber_manager", "set_wait_location")]
             vals = [x for x in fn.stores_to("fiber_manager", "set_wait_value")]
             okloc = [x.node for x in locs if x.value is not None and mentions_field(fn.key(x.value, True), "fiber", "scratch")]
-            okval = [x.node for x in vals if x.value is not None and strip(x.value).cv == -1]
+            okval = [x.node for x in vals if x.value is not None and strip(x.value).cv == rtw(P)]
             for y in ys:
                 for need, what in ((nodeset([s.node]), "the WAITING store"), (nodeset(okloc), "set_wait_location = &scratch"),
                                    (nodeset(okval), "set_wait_value = READY_TO_WAKE")):
@@ -426,7 +435,7 @@ def check_marker_site_delegated(ctx, P, fn):
     pubp = nodeset(pubs)
     for c in fn.calls("fiber_manager_set_and_wait"):
         a = fn.args(c)
-        if not mentions_field(fn.key(a[1], True), "fiber", "scratch") or strip(a[2]).cv != -1:
+        if not mentions_field(fn.key(a[1], True), "fiber", "scratch") or strip(a[2]).cv != rtw(P):
             bad = bad or ("the delegated sleep does not publish READY_TO_WAKE into the fiber's scratch: `%s`" % c.text, c, None, "delegated marker arguments")
         w = fn.guarded(c, lambda leaf, pol: pubp(through_local(fn, leaf)) and pol is True)
         if w is not None:
@@ -569,7 +578,8 @@ def check_wake_sites(ctx, P):
             if not any(isscr(m) for m in leaf.walk()):
                 return False
             try:
-                return truth_table(fn, leaf, pol, [isscr], [(-1, 0, 4096)]) == {(-1,)}
+                mk = rtw(P)
+                return truth_table(fn, leaf, pol, [isscr], [tuple(sorted({mk, -1, 0, 4096}))]) == {(mk,)}
             except Unevaluable:
                 return False
         for a in acts:
